@@ -26,6 +26,8 @@ UNITS = {
         "C08": ["CxVerif.Props.C01.GlueTieMd"], "C13": ["CxVerif.Props.C01.GlueTieMd"]}},
     "gluesponge": {"driver": None, "harness": None, "gens": None, "props": {
         p: ["CxVerif.Props.C02.GlueTieSponge"] for p in ("C01", "C02", "C08", "C09", "C11", "C20")}},
+    "gluedigest": {"driver": None, "harness": None, "gens": None, "props": {
+        p: ["CxVerif.Props.C09.GlueTieDigest"] for p in ("C01", "C02", "C08", "C09", "C10", "C20")}},
     "hashlen": {"driver": "HashLen", "harness": "ops_hashlen", "gens": "hashlen",
                 "props": {"C01": ["CxVerif.Props.C20.HashLen"], "C20": ["CxVerif.Props.C20.HashLen"]}},
     "long": {"driver": "Long", "harness": "ops_long", "gens": "long", "props": {}},
